@@ -192,6 +192,7 @@ pub fn c07_specs(quick: bool) -> Vec<EwSpec> { c07_parts(quick).0 }
 /// SYN-ACK, no Connect); Connect for the raw address only after the exact nonce came back; the byte ledger of C18.
 pub fn raw_handshake_scenario(tag: &str, greet: usize) -> Scenario {
     let name = format!("{}.raw-handshake|greet{}|versions3|he2|acks7|waits2", tag, greet);
+    let tag_owned = tag.to_string();
     let run = move |ch: &mut Chooser| -> ExecResult {
         let version = [uflow::PROTOCOL_VERSION, uflow::PROTOCOL_VERSION.wrapping_add(1), 0][ch.free(3)];
         let he = ch.free(2) == 1;
@@ -236,6 +237,8 @@ pub fn raw_handshake_scenario(tag: &str, greet: usize) -> Scenario {
             if exact && connects != 1 { violations.push(viol("C07.server-connect", "C07.server-connect:raw-honest".into(), format!("{}: the nonce came back but the server reported {} Connect events", what, connects))); }
         }
         violations.extend(oracle_c18(&cfg, &tr, 1));
+        // the scenario serves C07 and C18: each reports the clauses of its own property
+        violations.retain(|v| v.clause.starts_with(&tag_owned));
         let replies = tr.wire.iter().filter(|d| d.src == saddr() && d.dst == raddr(0)).count() as u64;
         ExecResult { violations, panic: None, outcome: crate::explore::hash_bytes(ew_outcome(&tr) ^ replies << 20 ^ (connects as u64) << 40, what.as_bytes()), states: ew_states(&tr), transitions: tr.obs.len() as u64, witnesses: 0,
                      sample: if variant == 1 && wait == 1 { Some(format!("{} -> {} SYN-ACKs, {} Connect, {} datagrams to the raw address", what, synacks, connects, replies)) } else { None } }
@@ -359,6 +362,17 @@ pub fn c17_parts(quick: bool) -> (Vec<EwSpec>, Vec<Scenario>) {
                 env.fates = DF_LOSS; env.fate_types = &[0, 1, 2, 4, 5]; env.deltas = &[100, 2000]; env.fair_delta = 500; env.stop_when_done = false;
                 scs.push(sc(&format!("C17.ending.{}", ename), &cfg, s2, env, if quick { 1 } else { 2 }, EO_C17 | EO_READMIT));
             }
+        }
+    }
+    // the server disconnects a client, the client acknowledges, and the same address connects again 5 / 15 / 23 s later (the disconnect
+    // retry budget of the old connection would have run for 22 s); a newcomer 3.5 s after that must find the slot taken
+    for (ma, mt) in [(1usize, 1usize), (1, 2)] {
+        for r1 in [10usize, 30, 46] {
+            let mut cfg = EwCfg::new(3); cfg.max_active = ma; cfg.max_total = mt;
+            let script = vec![at(0, Act::Connect(0)), after_s(0, 3, Act::SDisconnectNow(0)), at(r1, Act::Connect(0)), at(r1 + 7, Act::Connect(1)), at(r1 + 40, Act::CDisconnectNow(0)), at(r1 + 40 + 50, Act::Connect(2))];
+            let mut env = EwEnv::basic(5, r1 + 40 + 50 + 20);
+            env.fates = DF_LOSS; env.fate_types = &[0, 1, 2, 4, 5]; env.deltas = &[100, 2000]; env.fair_delta = 500; env.stop_when_done = false;
+            scs.push(sc(&format!("C17.same-address-returns-after-server-disconnect.{}", r1), &cfg, script, env, if quick { 1 } else { 2 }, EO_C17 | EO_C08));
         }
     }
     // handshakes abandoned half-way (the client vanishes after its SYN) must release their slot when the SYN-ACK retry budget is spent,
